@@ -29,7 +29,12 @@ def splitLines (b : List UInt8) : List (List UInt8) :=
     | [] => [cur.reverse]
   go [] b
 
-def sortStrs (l : List String) : List String := (l.toArray.qsort (· < ·)).toList
+
+/-- field lines ordered by field name only (stable: the lines of one name keep their wire order), as
+`sortByName` in harness/cmd/hresp/main.go -/
+def sortByName (lines : List (List UInt8)) : List String :=
+  let keyed := lines.map fun l => (hex (l.takeWhile (· != 58)), hexOrHash l)
+  (keyed.mergeSort fun a b => !(decide (b.1 < a.1))).map (·.2)
 
 def joinOrDash (l : List String) : String := if l.isEmpty then "-" else String.intercalate "," l
 
@@ -46,14 +51,14 @@ def report (wire : List UInt8) : String :=
   let first := lines.headD []
   let others := lines.drop 1
   let chunked := others.contains (str "Transfer-Encoding: chunked")
-  let hs := joinOrDash (sortStrs (others.map hexOrHash))
+  let hs := joinOrDash (sortByName others)
   let (rest, trl) : List UInt8 × String :=
     if chunked then
       let rev := rest.reverse
       match findRev 0 rev with
-      | some j => ((rev.drop j).reverse, joinOrDash (sortStrs ((splitLines (rev.take j).reverse).map hexOrHash)))
+      | some j => ((rev.drop j).reverse, joinOrDash (sortByName (splitLines (rev.take j).reverse)))
       | none =>
-        if rest.take 3 == [48, 13, 10] then (rest.take 3, joinOrDash (sortStrs ((splitLines (rest.drop 3)).map hexOrHash)))
+        if rest.take 3 == [48, 13, 10] then (rest.take 3, joinOrDash (sortByName (splitLines (rest.drop 3))))
         else (rest, "-")
     else (rest, "-")
   s!"head={hexOrHash first} hdr={hs} rest={rest.length}:{hex64 (fnv rest)} trl={trl}"
